@@ -13,7 +13,7 @@ claimed={
  "C08":("Every token sequence within the bound (and every bounded corruption of the seed programs) is parsed by the real parser with token kinds and values symbolic; whenever parsing succeeds, an independent re-printer of the tree must account for every source token in order (only the documented omissions allowed).",
         "Re-printer (harness/h/reprint.go) walks exported fields only. Token-slot sources use the lexer summary derived from the real Scan on this run."),
  "C10":("On every accepted token sequence within the bound each recorded span must equal the span of the lexeme(s) it describes and each node's Span() the extent of its first to last token, contained in its parent's; token spans are symbolic terms, equalities decided by z3.",
-        "Success part only so far (failed parses: spans of partial trees and line:col prefixes are not yet claimed). Token spans themselves are C09's subject."),
+        "For failed parses every span of the partial tree and every line:column prefix of the error texts is checked to lie in the source. Token spans themselves are C09's subject."),
  "C11":("On every accepted token sequence within the bound the real Walk is run; the visit sequence must contain every identifier/expression node exactly once, no nil, parents first, and with an arbitrary (symbolic) call index returning false exactly that node's descendants disappear.",
         "Node enumeration through exported fields (harness/h/reprint.go) is the oracle."),
  "C13":("Either/or contract asserted on all bounded byte strings and token sequences with 5 parameter maps; 'fails exactly when' asserted against rule predicates R1-R4 evaluated on the real parser's tree for every token sequence within the bound and for corrupted seed programs with calls, joins and lets at depth.",
